@@ -229,6 +229,24 @@ func buildCatalogue() []item {
 			}
 		})
 	}
+	// the same below the root: a certificate signed by the next one's key whose
+	// issuer field is the next one's subject with the attributes in another
+	// order / grouped into one RDN
+	for _, v := range []string{"reordered", "grouped"} {
+		v := v
+		add("issuer-name-"+v, false, notRoot, func(d *desc, pos int) {
+			o, c := pki.ATV{OID: pki.OIDO, Value: "chains-org"}, pki.ATV{OID: pki.OIDCN, Value: d.specs[pos+1].CN}
+			d.specs[pos+1].SubjectDER = pki.NameDER([]pki.ATV{o}, []pki.ATV{c})
+			if pos+1 == len(d.specs)-1 {
+				d.specs[pos+1].IssuerDER = d.specs[pos+1].SubjectDER
+			}
+			if v == "reordered" {
+				d.specs[pos].IssuerDER = pki.NameDER([]pki.ATV{c}, []pki.ATV{o})
+			} else {
+				d.specs[pos].IssuerDER = pki.NameDER([]pki.ATV{o, c})
+			}
+		})
+	}
 	// the same two-attribute name on subject and issuer side: an ordinary root
 	add("last-certificate-two-attribute-name", true, func(pos, n int, ts bool) bool { return pos == n-1 }, func(d *desc, pos int) {
 		nm := pki.NameDER([]pki.ATV{{OID: pki.OIDO, Value: "chains-org"}}, []pki.ATV{{OID: pki.OIDCN, Value: d.specs[pos].CN}})
